@@ -14,7 +14,8 @@ Open Scope string_scope.
 
 Inductive ex :=
  | ENum (m e : Z)
- | EVar (x : string)
+ | EStr (s : string)                (* string literal *)
+ | EVar (x : string)                (* numeric or string ($) scalar variable *)
  | ENeg (a : ex)
  | ENot (a : ex)
  | EFn (k : kw) (a : ex)            (* SQR SQRT CEIL FLOOR ABS SGN LOG10 SIN COS TAN ARCTAN LOG EXP STR$ *)
@@ -46,6 +47,7 @@ Fixpoint pr (L : nat) (a : ex) : list tok :=
   let body :=
     match a with
     | ENum m e => [TNum m e]
+    | EStr s => [TStr s]
     | EVar x => [TVar x]
     | ENeg b => TK Kminus :: pr 6 b
     | ENot b => TK Knot :: pr 6 b
@@ -77,6 +79,7 @@ Definition var_value (x : string) : res val :=
 Fixpoint eval_ast (a : ex) : res val :=
   match a with
   | ENum m ex => bind (lift (n_lit ops m ex) "numeric literal outside the strtod fast path") (fun x => Ok (VNum x))
+  | EStr s => Ok (VStr s)
   | EVar x => var_value x
   | ENeg b => bind (eval_ast b) (fun v => bind (need_num num v "Type mismatch error: found characters, not a number")
                                    (fun x => Ok (VNum (n_neg ops x))))
